@@ -58,7 +58,35 @@ pub enum Flavour {
         umv_unlimited: bool,
         #[serde(default)]
         layers: Option<(u8, u8)>,
+        /// Further optional PLUSPTYPE header fields (header-variety generator);
+        /// `None` = custom format, square pixels, nothing else.
+        #[serde(default)]
+        hdr: Option<PlusHdr>,
     },
+}
+
+/// Optional fields of a PLUSPTYPE header (H.263 5.1.4 - 5.1.19), written as given.
+#[derive(Clone, Debug, PartialEq, Eq, Serialize, Deserialize, Default)]
+pub struct PlusHdr {
+    /// OPPTYPE source format 1..=5 (fixed) or 6 (custom, CPFMT follows).
+    pub fmt: u8,
+    /// 0 = no UMV, 1 = UMV with UUI "1" (extended range), 2 = UMV with UUI "01" (unlimited).
+    pub umv: u8,
+    /// Custom picture clock: CPCFC byte and the two ETR bits.
+    pub pcf: Option<(u8, u8)>,
+    /// Pixel aspect ratio code 1..=15; 15 is followed by EPAR (width, height).
+    pub par: u8,
+    pub epar: (u8, u8),
+    /// OPPTYPE mode bits SAC, AP, AIC, DF, SS, RPS, ISD, AIV, MQ (9 bits, MSB first).
+    pub modes: u16,
+    /// SSS (2 bits), written when SS is set.
+    pub sss: u8,
+    /// MPPTYPE picture type code 0..=7 override (None: from the spec's ptype).
+    pub type_code: Option<u8>,
+    /// MPPTYPE RPR, RRU, RTYPE bits.
+    pub mpp_bits: u8,
+    /// CPM with PSBI.
+    pub cpm: Option<u8>,
 }
 
 /// Macroblock kinds in MCBPC order: 0 Inter, 1 InterQ, 2 Inter4V, 3 Intra,
@@ -316,7 +344,8 @@ fn encode_header(w: &mut BitWriter, s: &PicSpec) {
             w.put(s.quant as u32 & 31, 5);
             w.put(0, 1); // CPM off
         }
-        Flavour::StdPlus { umv_unlimited, layers } => {
+        Flavour::StdPlus { umv_unlimited, layers, hdr } => {
+            let h = hdr.clone().unwrap_or(PlusHdr { fmt: 6, umv: if *umv_unlimited { 2 } else { 0 }, par: 1, ..Default::default() });
             w.put(1, 17);
             w.put(0, 5);
             w.put(s.tr as u32, 8);
@@ -326,23 +355,44 @@ fn encode_header(w: &mut BitWriter, s: &PicSpec) {
             w.put(7, 3); // source format 111: extended PTYPE
             w.put(1, 3); // UFEP = 001
             // OPPTYPE, 18 bits
-            w.put(6, 3); // custom source format
-            w.put(0, 1); // custom PCF off
-            w.put(*umv_unlimited as u32, 1); // UMV
-            w.put(0, 9); // SAC AP AIC DF SS RPS ISD AIV MQ all off
+            w.put(h.fmt as u32 & 7, 3);
+            w.put(h.pcf.is_some() as u32, 1); // custom PCF
+            w.put((h.umv != 0) as u32, 1); // UMV
+            w.put(h.modes as u32 & 0x1FF, 9); // SAC AP AIC DF SS RPS ISD AIV MQ
             w.put(0b1000, 4);
             // MPPTYPE, 9 bits
-            w.put(if s.ptype == PType::I { 0 } else { 1 }, 3);
-            w.put(0, 3); // RPR, RRU, RTYPE
+            w.put(h.type_code.map(|t| t as u32 & 7).unwrap_or(if s.ptype == PType::I { 0 } else { 1 }), 3);
+            w.put(h.mpp_bits as u32 & 7, 3); // RPR, RRU, RTYPE
             w.put(0b001, 3);
-            w.put(0, 1); // CPM off
-            // CPFMT, 23 bits
-            w.put(1, 4); // PAR: square
-            w.put(((s.width / 4).max(1) - 1) as u32 & 0x1FF, 9);
-            w.put(1, 1);
-            w.put((s.height / 4) as u32 & 0x1FF, 9);
-            if *umv_unlimited {
-                w.put(0b01, 2); // UUI = "01": unlimited
+            match h.cpm {
+                Some(psbi) => {
+                    w.put(1, 1);
+                    w.put(psbi as u32 & 3, 2);
+                }
+                None => w.put(0, 1),
+            }
+            if h.fmt == 6 {
+                // CPFMT, 23 bits
+                w.put(h.par as u32 & 15, 4);
+                w.put(((s.width / 4).max(1) - 1) as u32 & 0x1FF, 9);
+                w.put(1, 1);
+                w.put((s.height / 4) as u32 & 0x1FF, 9);
+                if h.par == 15 {
+                    w.put(h.epar.0 as u32, 8);
+                    w.put(h.epar.1 as u32, 8);
+                }
+            }
+            if let Some((cpcfc, etr)) = h.pcf {
+                w.put(cpcfc as u32, 8);
+                w.put(etr as u32 & 3, 2);
+            }
+            match h.umv {
+                1 => w.put(1, 1),    // UUI = "1": extended range
+                2 => w.put(0b01, 2), // UUI = "01": unlimited
+                _ => {}
+            }
+            if h.modes & 0b0_0001_0000 != 0 {
+                w.put(h.sss as u32 & 3, 2); // SSS (slice structured mode)
             }
             if let Some((el, rl)) = layers {
                 w.put(*el as u32 & 15, 4); // ELNUM
